@@ -27,6 +27,15 @@ on every run):
  R  functions forwarding *args/**kwargs to themselves / to each other (also a
     functools.wraps pair), sigtools.signature from threads that did not import
     sigtools: the per-thread recursion stack of autoforwards_function.
+ P  ONE modifiers object (_PokTranslator from kwoargs / posoargs / autokwoargs) retrieved by
+    every thread, inspect.signature and sigtools.signature mixed: with readable source and
+    without (function made by exec), plain and forwarding *args/**kwargs, as a function,
+    as a method looked up on a shared instance (the bound object cached beforehand) and on
+    the class.  The code as it is only READS the object (its __signature__ slot, its
+    __wrapped__, the hint) - nothing is set aside.  Every one-preemption plan for every
+    pair and for three trios, in every tier; for this family the scheduler also parks in
+    autoforwards / autoforwards_hint / _PokTranslator._sigtools__autoforwards_hint.
+    Quiescence: every object still has the identical __signature__ / __wrapped__.
 For each query: alone in the importing thread == written-down answer; alone in a
 worker thread; then every plan with one preemption (quick: all for the
 same-attribute pair, a seeded fraction for the others) + random plans with two
@@ -80,14 +89,29 @@ def modelled_codes():
     return table
 
 
+def extra_codes_P():
+    """Further functions traced for family P of machine I ONLY (the other machines' Coq models carry the
+    trace codes of modelled_codes() and nothing else): the route from forged_signature to a modifiers
+    object's hint, where the code as it is touches nothing shared."""
+    return {
+        10: _code(_autoforwards.autoforwards_hint),
+        11: _code(modifiers._PokTranslator._sigtools__autoforwards_hint),
+        12: _code(_autoforwards.autoforwards),
+    }
+
+
 def _subject_of(fid, frame):
     """The object a modelled frame works on (decides whether it is a yield frame)."""
     loc = frame.f_locals
     try:
         if fid == 1:
             return loc.get('obj')
-        if fid == 2 or fid == 3:
+        if fid == 2 or fid == 3 or fid == 10:
             return loc.get('func')
+        if fid == 11:
+            return loc.get('self')
+        if fid == 12:
+            return loc.get('obj')
         if fid == 4 or fid == 5:
             return getattr(loc.get('self'), 'func', None)
         if fid == 6:
@@ -117,7 +141,7 @@ class Run(object):
     # non-sequential answer); a run in which any wait timed out is never judged (see run_plan)
     TIMEOUT = 600.0
 
-    def __init__(self, fns, tracked, pred=None):
+    def __init__(self, fns, tracked, pred=None, extra=None):
         self.fns = fns
         self.n = len(fns)
         self.tracked = tracked          # list of objects (identity)
@@ -130,6 +154,8 @@ class Run(object):
         self.events = []                # global order: (tid, code)
         self.free = False
         self.codes = dict((c, fid) for fid, c in modelled_codes().items() if c is not None)
+        if extra:
+            self.codes.update((c, fid) for fid, c in extra.items() if c is not None)
         self.threads = [threading.Thread(target=self._body, args=(i,), daemon=True)
                         for i in range(self.n)]
         for t in self.threads:
@@ -1402,11 +1428,29 @@ def stress_E(ctx, rep, seconds):
 #   family R - sigtools.signature, from threads that did not import sigtools, of functions
 #              forwarding *args/**kwargs to themselves / to each other (the per-thread
 #              recursion stack of autoforwards_function)
+#   family P - one modifiers object (kwoargs / posoargs / autokwoargs result), with and without
+#              readable source, function / method on an instance / on the class, retrieved by all
+#              threads: retrieval only reads it (cleanup_functools_wrapper is never applied to it)
 # Model: coq/theories/Proofs/SchedIndep.v (n independent programs under the plan scheduler).
 # ----------------------------------------------------------------------------
 from sigtools import wrappers as _wrappers  # noqa: E402
 
-I_KEYS = {'K': 'C17:class-access', 'R': 'C17:thread-recursion'}
+I_KEYS = {'K': 'C17:class-access', 'R': 'C17:thread-recursion', 'P': 'C17:modifiers-shared'}
+I_FAMILIES = ('K', 'R', 'P')
+I_LABEL = {'K': 'methods looked up on the class', 'R': 'self/mutually forwarding functions',
+           'P': 'one modifiers-wrapped callable (kwoargs / posoargs / autokwoargs) retrieved by every thread'}
+# family P: object letter + how (I = inspect.signature, S = sigtools.signature); every thread works on the SAME object
+P_OBJECTS = {
+    'e': 'pok_exec = kwoargs("c")(f), f(a, b=2, c=3) made by exec (no readable source)',
+    's': 'pok_src = kwoargs("c")(g), g(a, b=2, c=3) defined in a file',
+    'a': 'auto_exec = autokwoargs(f), f made by exec',
+    'o': 'poso_exec = posoargs("a")(f), f made by exec',
+    'f': 'fwd_exec = kwoargs("c")(fw), fw(a, c=3, *args, **kwargs) made by exec, forwards to target',
+    'g': 'fwd_src = kwoargs("c")(fw), fw(a, c=3, *args, **kwargs) defined in a file, forwards to target',
+    'm': 'k.em, em = kwoargs("c")(method made by exec), looked up on the shared instance k by each thread',
+    'n': 'k.sm, sm = kwoargs("c")(method defined in a file), looked up on the shared instance k by each thread',
+    'c': 'K.em, the same exec-made method looked up on the class by each thread',
+}
 I_QUERY_NAMES = {
     'K': {
         'wI': 'inspect.signature(K.logged)  [wrapper_decorator method, looked up on the class]',
@@ -1423,6 +1467,8 @@ I_QUERY_NAMES = {
         'm': 'sigtools.signature(impl)  [the implementation under that functools.wraps wrapper]',
         'x': 'sigtools.signature(plain)  [ordinary forwarder to target, no recursion]',
     },
+    'P': dict((o + h, '%s.signature(%s)' % ('inspect' if h == 'I' else 'sigtools', P_OBJECTS[o]))
+              for o in P_OBJECTS for h in 'IS'),
 }
 # the answers of the retrievals run alone, written down
 I_SPEC = {
@@ -1431,11 +1477,17 @@ I_SPEC = {
           'iI': '(a, b=2, *, _show=True)'},
     'R': {'r': '(attempts, a, b=1, *, c=None)', 'p': '(n, a, b=1, *, c=None)', 'q': '(m, a, b=1, *, c=None)',
           'w': '(attempts, a, b=1, *, c=None)', 'm': '(attempts, a, b=1, *, c=None)', 'x': '(z, a, b=1, *, c=None)'},
+    'P': {'eI': '(a, b=2, *, c=3)', 'eS': '(a, b=2, *, c=3)', 'sI': '(a, b=2, *, c=3)', 'sS': '(a, b=2, *, c=3)',
+          'aI': '(a, *, b=2, c=3)', 'aS': '(a, *, b=2, c=3)', 'oI': '(a, /, b=2, c=3)', 'oS': '(a, /, b=2, c=3)',
+          'fI': '(a, *args, c=3, **kwargs)', 'fS': '(a, *args, c=3, **kwargs)',
+          'gI': '(a, *args, c=3, **kwargs)', 'gS': '(a, x, y=1, *, c=3, z=None)',
+          'mI': '(a, b=2, *, c=3)', 'mS': '(a, b=2, *, c=3)', 'nI': '(a, b=2, *, c=3)', 'nS': '(a, b=2, *, c=3)',
+          'cI': '(self, a, b=2, *, c=3)', 'cS': '(self, a, b=2, *, c=3)'},
 }
 # queries that touch a functools.wraps function: its delete/restore window is the listed
 # C17:wrapped-window race when two threads work on it, so such a query is scheduled next to
 # unrelated ones only (and alone)
-I_WINDOWED = {'K': set(), 'R': set(['w', 'm'])}
+I_WINDOWED = {'K': set(), 'R': set(['w', 'm']), 'P': set()}
 
 
 class IScenario(object):
@@ -1445,10 +1497,13 @@ class IScenario(object):
     def __init__(self, family):
         self.family = family
         self.pred = None
+        self.extra = None
         if family == 'K':
             self._init_K()
         elif family == 'R':
             self._init_R()
+        elif family == 'P':
+            self._init_P()
         else:
             raise KeyError(family)
 
@@ -1520,10 +1575,84 @@ class IScenario(object):
         self.impl = impl
         self.tracked = [target, retry, ping, pong, impl, wrapped_retry, plain]
 
+    # -- family P
+    def _init_P(self):
+        def target(x, y=1, *, z=None):
+            return (x, y, z)
+
+        def made(src, name):
+            ns = {'target': target}
+            exec(src, ns)                      # no file behind the code object: inspect.getsource fails
+            return ns[name]
+        src_f = 'def f(a, b=2, c=3):\n    return a, b, c\n'
+        src_fw = 'def fw(a, c=3, *args, **kwargs):\n    return target(*args, **kwargs)\n'
+        src_em = 'def em(self, a, b=2, c=3):\n    return a, b, c\n'
+
+        def g(a, b=2, c=3):
+            return a, b, c
+
+        def fw(a, c=3, *args, **kwargs):
+            return target(*args, **kwargs)
+
+        class K(object):
+            em = modifiers.kwoargs('c')(made(src_em, 'em'))
+
+            @modifiers.kwoargs('c')
+            def sm(self, a, b=2, c=3):
+                return a, b, c
+        self.K = K
+        self.k = k = K()
+        objs = {
+            'e': modifiers.kwoargs('c')(made(src_f, 'f')),
+            's': modifiers.kwoargs('c')(g),
+            'a': modifiers.autokwoargs(made(src_f, 'f')),
+            'o': modifiers.posoargs('a')(made(src_f, 'f')),
+            'f': modifiers.kwoargs('c')(made(src_fw, 'fw')),
+            'g': modifiers.kwoargs('c')(fw),
+            # the bound translator objects, built (and cached by OverrideableDataDesc.__get__) before the
+            # threads start: each thread's k.em finds this one object (the cache itself is machine C's subject)
+            'm': k.em,
+            'n': k.sm,
+            'c': K.em,
+        }
+        self.objs = objs
+        self.readable = dict((o, _util.get_ast(getattr(p.func, '__func__', p.func)) is not None)
+                             for o, p in objs.items())
+        self.tracked = list(objs.values()) + [vars(K)['em'], vars(K)['sm'], target, k, K]
+        self.tracked += [p.func for p in objs.values()]
+        self.initial = dict((o, (p.__signature__, vars(p).get('__wrapped__'))) for o, p in objs.items())
+        self.extra = extra_codes_P()
+
+    def _final_P(self):
+        """-> list of what is wrong with the shared translator objects"""
+        bad = []
+        for o, p in sorted(self.objs.items()):
+            sig0, w0 = self.initial[o]
+            if getattr(p, '__signature__', None) is not sig0:
+                bad.append('%s has lost / changed its __signature__' % P_OBJECTS[o].split(',')[0])
+            if vars(p).get('__wrapped__') is not w0:
+                bad.append('%s has lost / changed its __wrapped__' % P_OBJECTS[o].split(',')[0])
+        if len(specifiers.as_forged.currently_computing):
+            bad.append('as_forged.currently_computing is not empty')
+        if self.k.em is not self.objs['m'] or self.k.sm is not self.objs['n']:
+            bad.append('k.em / k.sm is no longer the cached bound object')
+        return bad
+
     def call(self, q):
         if self.family == 'R':
             f = self.fns[q]
             return lambda: str(sigtools.signature(f))
+        if self.family == 'P':
+            how = inspect.signature if q[1] == 'I' else sigtools.signature
+            K, k = self.K, self.k
+            if q[0] == 'm':
+                return lambda: str(how(k.em))
+            if q[0] == 'n':
+                return lambda: str(how(k.sm))
+            if q[0] == 'c':
+                return lambda: str(how(K.em))
+            obj = self.objs[q[0]]
+            return lambda: str(how(obj))
         K, k = self.K, self.k
         how = inspect.signature if q[1] == 'I' else sigtools.signature
         if q[0] == 'w':
@@ -1536,6 +1665,9 @@ class IScenario(object):
         """quiescence: nothing left in the shared guard set; the functools.wraps function has its attribute"""
         if self.family == 'K':
             return len(specifiers.as_forged.currently_computing) == 0
+        if self.family == 'P':
+            self.final_bad = self._final_P()
+            return not self.final_bad
         return vars(self.fns['w']).get('__wrapped__') is self.impl
 
 
@@ -1564,12 +1696,12 @@ def _worker_I(job):
     out = []
     for p in plans:
         sc = IScenario(family)
-        r = Run([sc.call(q) for q in specs], sc.tracked, sc.pred)
+        r = Run([sc.call(q) for q in specs], sc.tracked, sc.pred, sc.extra)
         status = r.run_plan(list(p))
         ok = sc.final_ok()
         again = [_safe(sc.call(q)) for q in specs]
         out.append({'status': status, 'results': list(r.result), 'traces': [list(t) for t in r.trace],
-                    'final_ok': ok, 'again': again})
+                    'final_ok': ok, 'again': again, 'final_bad': getattr(sc, 'final_bad', None)})
         if not ok:
             specifiers.as_forged.currently_computing.clear()
     return out
@@ -1595,20 +1727,25 @@ def run_batches_I(sets, workers):
     return out
 
 
+def quiescence_text(family, bad=None):
+    if family == 'K':
+        return 'as_forged.currently_computing is not empty'
+    if family == 'P':
+        return '; '.join(bad or ['a shared modifiers object lost an attribute'])
+    return 'wrapped_retry has lost its __wrapped__'
+
+
 def judge_I(family, specs, plan, o):
     out = []
     names = I_QUERY_NAMES[family]
     for tid, (q, res) in enumerate(zip(specs, o['results'])):
         if res != i_solo(family, q):
             out.append((I_KEYS[family], '%s, threads %s, plan %s: thread %d %s returned %s, alone it returns %s'
-                        % ('methods looked up on the class' if family == 'K' else 'self/mutually forwarding functions',
-                           ' '.join(specs), list(plan), tid, names[q], res, i_solo(family, q))))
+                        % (I_LABEL[family], ' '.join(specs), list(plan), tid, names[q], res, i_solo(family, q))))
     if not o['final_ok']:
         out.append((I_KEYS[family] + '-quiescence',
                     'threads %s, plan %s: after the threads finished %s' % (
-                        ' '.join(specs), list(plan),
-                        'as_forged.currently_computing is not empty' if family == 'K'
-                        else 'wrapped_retry has lost its __wrapped__')))
+                        ' '.join(specs), list(plan), quiescence_text(family, o.get('final_bad')))))
     for q, a in zip(specs, o['again']):
         if a != i_solo(family, q):
             out.append((I_KEYS[family] + '-quiescence',
@@ -1642,15 +1779,25 @@ I_SETS = {
           (['wI', 'sI'], False), (['sI', 'sS'], False), (['iI', 'wI'], False), (['iI', 'iI'], False)],
     'R': [(['r', 'r'], False), (['p', 'q'], False), (['p', 'p'], False), (['q', 'r'], False),
           (['w', 'r'], False), (['m', 'x'], False), (['x', 'x'], False)],
+    # family P: both threads on the SAME object; every one-preemption plan in every tier
+    'P': [(['eS', 'eI'], True), (['eS', 'eS'], True), (['mI', 'mI'], True),
+          (['sS', 'sI'], True), (['sS', 'sS'], True),
+          (['aS', 'aI'], True), (['aS', 'aS'], True), (['oS', 'oI'], True), (['oS', 'oS'], True),
+          (['fS', 'fI'], True), (['fS', 'fS'], True), (['gS', 'gI'], True), (['gS', 'gS'], True),
+          (['mS', 'mI'], True), (['mS', 'mS'], True), (['nS', 'nI'], True), (['nS', 'nS'], True),
+          (['cS', 'cI'], True), (['cS', 'cS'], True)],
 }
-I_TRIOS = {'K': [['wI', 'wI', 'sI'], ['wI', 'iI', 'wS']], 'R': [['r', 'p', 'q'], ['r', 'r', 'w']]}
+I_TRIOS = {'K': [['wI', 'wI', 'sI'], ['wI', 'iI', 'wS']], 'R': [['r', 'p', 'q'], ['r', 'r', 'w']],
+           'P': [['aS', 'aI', 'aS'], ['gS', 'gS', 'gI'], ['nS', 'nI', 'nS'], ['fS', 'fI', 'fI']]}
+# trios of which every one-preemption plan is run in every tier (plus the random two-preemption plans)
+I_TRIOS_FULL = {'K': [], 'R': [], 'P': [['eS', 'eI', 'eS'], ['mS', 'mI', 'mS'], ['sS', 'sI', 'sS']]}
 
 
 def explore_I(ctx, rep, workers):
     rng = ctx.rng('plansI')
     cov = rep.coverage.setdefault('I', {})
     coq_jobs, family_results = [], {}
-    for family in ('K', 'R'):
+    for family in I_FAMILIES:
         broken = set()
         progs = {}
         for q in sorted(I_SPEC[family]):
@@ -1700,6 +1847,15 @@ def explore_I(ctx, rep, workers):
             while len(ps) < (60 if ctx.quick else 800):
                 ps.add(random_plan(rng, 3, 2, K))
             sets.append((trio, sorted(ps, key=str), K, False))
+        for trio in I_TRIOS_FULL[family]:
+            if any(q in broken for q in trio):
+                continue
+            K = max(len(progs[q]) for q in trio) + 1
+            ps = set(one_preemption_plans(3, K))
+            n2 = (40 if ctx.quick else 800) + len(ps)
+            while len(ps) < n2:
+                ps.add(random_plan(rng, 3, 2, K))
+            sets.append((trio, sorted(ps, key=str), K, True))
         results = []
         all_obs = run_batches_I([(family, specs, plans) for specs, plans, K, full in sets], workers)
         # the model's side: one Coq file per family (traces interned once), one term per set
@@ -1738,11 +1894,11 @@ def explore_I(ctx, rep, workers):
         except coqrun.CoqError as e:
             return str(e)[-600:]
         return None
-    with concurrent.futures.ThreadPoolExecutor(max_workers=2) as ex:
+    with concurrent.futures.ThreadPoolExecutor(max_workers=len(I_FAMILIES)) as ex:
         for err in ex.map(coq_one, coq_jobs):
             if err:
                 rep.corr_break('C17 machine I: the model could not be evaluated', 'Proofs/SchedIndep.v', err, '')
-    for family in ('K', 'R'):
+    for family in I_FAMILIES:
         results, disagree, broken, progs = family_results[family]
         for ri, (specs, plans, obs, K, full) in enumerate(results):
             stats = {'plans': len(plans), 'valid': 0, 'nonsequential': 0, 'preemption_positions': K,
@@ -1767,6 +1923,13 @@ def explore_I(ctx, rep, workers):
                                     'solo trace lengths': [len(progs[q]) for q in specs]})
             cov['%s/%s' % (family, '-'.join(specs))] = stats
         cov['%s/alone-in-a-worker-thread' % family] = {'queries': len(I_SPEC[family]), 'wrong': len(broken)}
+    scP = IScenario('P')
+    cov['P/objects'] = dict((o, {'what': P_OBJECTS[o], 'readable_source': scP.readable[o],
+                                 'solo_trace_length': dict((h, len(family_results['P'][3].get(o + h, [])))
+                                                           for h in 'IS')})
+                            for o in sorted(P_OBJECTS))
+    cov['P/traced_functions'] = sorted(getattr(c, 'co_name', '?') for c in
+                                       list(modelled_codes().values()) + list(extra_codes_P().values()))
 
 
 def stress_I(ctx, rep, seconds):
@@ -1776,9 +1939,9 @@ def stress_I(ctx, rep, seconds):
     stats = {}
     try:
         sys.setswitchinterval(1e-6)
-        for family in ('K', 'R'):
+        for family in I_FAMILIES:
             rounds = wrong = 0
-            t_end = time.time() + seconds / 2.0
+            t_end = time.time() + seconds / float(len(I_FAMILIES))
             pool = sorted(q for q in I_SPEC[family] if q not in I_WINDOWED[family])
             while time.time() < t_end:
                 rounds += 1
@@ -1789,6 +1952,11 @@ def stress_I(ctx, rep, seconds):
                     specs = [rng.choice(pool) for _ in range(3)]
                 if family == 'R' and rng.random() < 0.3:
                     specs[0] = rng.choice(sorted(I_WINDOWED[family]))   # one thread on the functools.wraps pair
+                if family == 'P':
+                    # all three on the same object; at least one sigtools.signature among them
+                    o = rng.choice(sorted(P_OBJECTS))
+                    specs = [o + 'S'] + [o + rng.choice('IS') for _ in range(2)]
+                    rng.shuffle(specs)
                 barrier = threading.Barrier(3)
                 res = [[] for _ in specs]
                 iters = rng.randint(3, 8)
@@ -1819,8 +1987,8 @@ def stress_I(ctx, rep, seconds):
                 if not sc.final_ok():
                     wrong += 1
                     rep.violation(I_KEYS[family] + '-quiescence', 'stress, threads %s: at quiescence %s' % (
-                        ' '.join(specs), 'as_forged.currently_computing is not empty' if family == 'K'
-                        else 'wrapped_retry has lost its __wrapped__'), {'machine': 'stressI', 'family': family})
+                        ' '.join(specs), quiescence_text(family, getattr(sc, 'final_bad', None))),
+                        {'machine': 'stressI', 'family': family})
                     specifiers.as_forged.currently_computing.clear()
                 if wrong > 20:
                     break
@@ -1928,13 +2096,14 @@ def run(ctx, rep):
     stress(ctx, rep, 4.0 if ctx.quick else 30.0)
     stress_F(ctx, rep, 2.0 if ctx.quick else 15.0)
     stress_E(ctx, rep, 2.0 if ctx.quick else 15.0)
-    stress_I(ctx, rep, 3.0 if ctx.quick else 20.0)
+    stress_I(ctx, rep, 4.5 if ctx.quick else 30.0)
     rep.traces = rep.evaluations
     rep.assumptions.extend([
         'threads are preempted only at line events of the modelled sigtools functions '
         '(forged_signature, autoforwards_function, cleanup_functools_wrapper.__init__/__enter__/__exit__, '
         '_AsForged.__get__, OverrideableDataDesc.__get__, _ForgerWrapper.__get__ and the _transform it calls) '
-        'whose frame works on the shared object; '
+        'whose frame works on the shared object (family P of machine I only: also autoforwards, autoforwards_hint and '
+        '_PokTranslator._sigtools__autoforwards_hint); '
         'preemption inside C code or inside inspect/ast, and the real granularity of the GIL, are not exhibited by the '
         'model (only by the randomized stress part)',
         'inspect.signature reads __wrapped__/__signature__ as one atomic step (validated: no modelled line lies inside it)',
